@@ -244,7 +244,7 @@ class bptk():
         """
         state = self.session_state
 
-        if not state or not state.get("settings_log"):
+        if not state:
             return
 
         scenario_managers = state["scenario_managers"]
@@ -261,7 +261,7 @@ class bptk():
                         manager.scenarios[scenario].configure_settings(session_settings[manager.name][scenario])
                     self.reset_scenario_cache(scenario_manager=manager.name, scenario=scenario)
 
-                for step, settings in state["settings_log"].items():
+                for step, settings in (state.get("settings_log") or {}).items():
                     SdRunner(self.scenario_manager_factory).run_scenario_step(
                         step=float(step),
                         scenarios=relevant_scenarios,
